@@ -115,6 +115,7 @@ class Gen:
         self.have_mod = False
         self.have_inc = False
         self.mod_exports: list[tuple[str, str, int]] = []  # (name, kind, nargs)
+        self.mod_exports_all: list[tuple[str, str, int]] = []
         self.blocks: list[str] = []
         self.cur_block: int | None = None  # index of the block being generated (None = outside blocks)
         self.cur_template = "main"
@@ -387,7 +388,89 @@ class Gen:
         n = n if n is not None else 1 + self.d(3)
         return "".join(self.stmt(sc, depth) for _ in range(n))
 
+    NAMEPOOL = ["alpha", "bravo", "charlie", "delta", "echo", "foxtrot", "golf", "hotel", "india", "juliet",
+                "kilo", "lima", "mike", "november", "oscar", "papa", "quebec", "romeo", "sierra", "tango"]
+
+    def _names(self, lo: int, hi: int) -> list[str]:
+        n = lo + self.d(hi - lo + 1)
+        pool = list(self.NAMEPOOL)
+        out = []
+        for _ in range(n):
+            out.append(pool.pop(self.d(len(pool))))
+        return out
+
+    def _ctx_use(self) -> str:
+        """Something that makes the compiler dump the local context."""
+        k = self.d(3)
+        if self.have_inc and self.cur_template != "inc" and k == 0:
+            return self.tag("include 'inc'")
+        if self.have_mod and self.cur_template not in ("mod", "inc") and k == 1:
+            return self.tag(f"import 'mod' as {self.fresh('im')} with context")
+        if self.have_mod and self.cur_template not in ("mod", "inc") and self.mod_exports_all:
+            nm = ", ".join(n for n, _k, _a in self.mod_exports_all)
+            return self.tag(f"from 'mod' import {nm} with context")
+        return self.tag("include ['nope', 'inc'] ignore missing")
+
+    def bias_stmt(self, sc: Scope, depth: int) -> str:
+        """Statements aimed at the places where the code generator turns a set of names into text."""
+        P = self.prog
+        names = self._names(2, 6)
+        k = self.d(6)
+        if k == 0:
+            P.feat("bias_branch_stores")
+            a = "".join(self.tag(f"set {n} = {self.d(9)}") for n in names)
+            b = "".join(self.tag(f"set {n} = {self.d(9)}") for n in reversed(names))
+            s = self.tag(f"if {self.e_bool(sc, 2)}") + a + self.tag("else") + b + self.tag("endif")
+            s += self._ctx_use() + "".join(self.var(n) for n in names)
+            sc.ints.extend(names)
+            return s
+        if k == 1:
+            P.feat("bias_tuple_set")
+            s = self.tag(f"set {', '.join(names)} = {', '.join(str(self.d(9)) for _ in names)}")
+            for n in names[:2]:
+                s += self.tag(f"set {n}x") + self.var(n) + self.tag("endset")
+            sc.ints.extend(names)
+            return s + self._ctx_use()
+        if k == 2:
+            P.feat("bias_loop_stores")
+            it = self.fresh("x")
+            s = self.tag(f"for {it} in l1")
+            s += "".join(self.tag(f"set {n} = {it} + {i}") for i, n in enumerate(names))
+            s += self._ctx_use() + self.var(" ~ ".join(names)) + self.tag("endfor")
+            return s
+        if k == 3:
+            P.feat("bias_nested_frames")
+            w = self.fresh("wi")
+            s = "".join(self.tag(f"set {n} = {i}") for i, n in enumerate(names[: len(names) // 2 + 1]))
+            s += self.tag(f"with {w} = 1") + "".join(self.tag(f"set {n} = {w}") for n in names[len(names) // 2:])
+            it = self.fresh("x")
+            s += self.tag(f"for {it} in l1") + self.tag(f"set {names[0]}y = {it}") + self._ctx_use() + self.tag("endfor")
+            s += self.tag("endwith")
+            return s
+        if k == 4:
+            P.feat("bias_many_filters_tests")
+            flt = ["upper", "lower", "title", "trim", "e", "string", "length", "capitalize", "striptags", "wordcount", "list", "first", "last"]
+            tst = ["odd", "even", "defined", "number", "string", "none", "mapping", "iterable", "sequence", "lower", "upper"]
+            parts = []
+            for n in names:
+                parts.append(self.var(f"s1|{flt[self.d(len(flt))]}|{flt[self.d(len(flt))]}"))
+                parts.append(self.tag(f"if n1 is {tst[self.d(len(tst))]} or s1 is {tst[self.d(len(tst))]}") + n + self.tag("endif"))
+            return "".join(parts)
+        P.feat("bias_macro_special")
+        m = self.fresh("m")
+        params = ", ".join(f"{n}={i}" for i, n in enumerate(names))
+        body = "".join(self.var(n) for n in names) + self.var("varargs|length") + self.var("kwargs|length")
+        body += self.tag("if caller") + self.var("caller()") + self.tag("endif")
+        s = self.tag(f"macro {m}({params})") + body + self.tag("endmacro")
+        s += self.var(f"{m}(1, 2)") + self.tag(f"call {m}()") + "c" + self.tag("endcall")
+        for a_, b_ in zip(names[::2], names[1::2]):
+            it = self.fresh("p")
+            s += self.tag(f"for {a_}, {b_} in d1|dictsort") + self.var(f"{a_} ~ {b_}") + self.tag("endfor")
+        return s
+
     def stmt(self, sc: Scope, depth: int) -> str:
+        if self.compile_bias and not sc.closed and self.chance(2, 5):
+            return self.bias_stmt(sc, depth)
         deep = depth >= self.max_depth
         weights = [
             5,  # 0 output
@@ -721,6 +804,7 @@ class Gen:
             P.templates["mod"] = self.gen_mod()
             self.have_mod = True
         saved_exports = list(self.mod_exports)
+        self.mod_exports_all = list(self.mod_exports)
         if use_inc:
             self.have_inc = True
             P.templates["inc"] = self.gen_inc()
